@@ -542,6 +542,9 @@ func (ev *Ev) specGoCall(fo *types.Func, recv *Value, x *ast.CallExpr) Value {
 				ts = append(ts, a.T)
 			}
 			fn := ev.u.declareFun(pureName(key, sorts), sorts, ev.u.sortOf(rt))
+			if key == "errors.Is" && len(sorts) == 2 {
+				ev.u.errorsIsAxioms(fn)
+			}
 			return scalar(app(fn, ts...), ev.u.sortOf(rt), rt)
 		}
 		return ev.errorf(x.Pos(), "Go function %s used in a contract has no contract", key)
